@@ -156,7 +156,8 @@ class Ctx:
         blocks = [b for b in blocks if b.startswith("Closed") or b.startswith("Axioms:")]
         names = re.findall(r'Print Assumptions\s+(\w+)', text)
         for n, b in zip(names, blocks):
-            ax = [] if b.startswith("Closed") else re.findall(r'(?m)^([A-Za-z_][\w\.]*)\s*:', b)
+            ax = [] if b.startswith("Closed") else [x for x in re.findall(r'(?m)^([A-Za-z_][\w\.]*)\s*:', b)
+                                                    if x != "Axioms"]
             self.axioms[n] = sorted(set(ax))
         missing = [t for t in self.obligations if t not in self.axioms]
         if missing:
@@ -261,7 +262,12 @@ def finish(ctx, level="proof", extra_trusted=(), assumptions=()):
                    "no_longer_checks": ctx.problems, "search": ctx.search_info}, open(rp, "w"), indent=1, default=str)
         lines.append("VIOLATION property=%s replay=%s no-failing-input-found" % (ctx.pid, rp))
         violations += 1
-    ax = sorted({a for v in ctx.axioms.values() for a in v})
+    ax = sorted({a for v in ctx.axioms.values() for a in v if a != "Axioms"})
+    prim = [a for a in ax if a.startswith("PrimInt63.") or a.startswith("Uint63.") or a.startswith("PrimFloat.")]
+    if prim:
+        ax = [a for a in ax if a not in prim] + [
+            "Coq primitive 63-bit integers (kernel primitives PrimInt63.* and the standard library's Uint63.*_spec "
+            "axioms about them; %d names, used through Bignums BigZ)" % len(prim)]
     trusted = ["Coq 8.16.1 kernel (coqc, vm_compute; no native_compute)"] + \
               ["axiom (Coq standard library / installed library, via Print Assumptions): " + a for a in ax] + \
               list(ctx.trusted) + list(extra_trusted)
@@ -270,7 +276,9 @@ def finish(ctx, level="proof", extra_trusted=(), assumptions=()):
         "checker_cmd": "make -C /verif/coq %s && coqc %s (Print Assumptions)" % (
             " ".join(getattr(ctx, "targets", [])), getattr(ctx, "prop_file", "")),
         "trusted_base": trusted,
-        "theorems": ctx.obligations, "axioms_per_theorem": ctx.axioms,
+        "theorems": ctx.obligations,
+        "axioms_per_theorem": {t: sorted({("Coq-primitive-int63 (PrimInt63.*, Uint63.*_spec)" if a.startswith(
+            ("PrimInt63.", "Uint63.")) else a) for a in v}) for t, v in ctx.axioms.items()},
         "evaluations": ctx.corr["evaluations"] + ctx.search_info["evaluations"],
         "distinct_nontrivial": ctx.corr["distinct_nontrivial"],
         "rule": ctx.corr["rule"], "samples": ctx.corr["samples"][:6] or [{"obligations": ctx.obligations[:6]}],
